@@ -586,6 +586,7 @@ def run_unit(name, tier, repo=None, cache=None, probes=True):
 
 
 MISSING_RES = [re.compile(r"cannot find function `(\w+)`"), re.compile(r"cannot find value `([A-Z][A-Z0-9_]*)`"),
+               re.compile(r"cannot find (?:type|struct, variant or union type|value|function, tuple struct or tuple variant) `([A-Z][A-Za-z0-9]*)`"),
                re.compile(r"named `(\w+)` found for (?:struct|enum|union|type alias|type) `(\w+)"),
                re.compile(r"no method named `(\w+)` found for (?:struct|enum|union|reference|mutable reference) `[&a-z ]*(\w+)")]
 
@@ -632,7 +633,7 @@ def find_missing_callees(unit, ctx, text, workdir, repo):
                 continue
             hit = None
             for it in sf.items:
-                if it.kw in ('fn', 'const') and it.name == name and ty is None:
+                if it.kw in ('fn', 'const', 'struct', 'enum') and it.name == name and ty is None:
                     hit = (rel, None, name, it.kw)
                 elif it.kw == 'impl' and it.body_open is not None:
                     hdr = re.sub(r'\s+', ' ', it.header).strip()[len('impl'):].strip()
